@@ -6,7 +6,13 @@ use std::collections::{BTreeMap, HashSet};
 #[cfg(feature = "full")]
 pub mod c01;
 #[cfg(feature = "full")]
+pub mod c02;
+#[cfg(feature = "full")]
+pub mod c03;
+#[cfg(feature = "full")]
 pub mod c04;
+#[cfg(feature = "full")]
+pub mod c05;
 #[cfg(feature = "full")]
 pub mod common;
 
@@ -145,7 +151,10 @@ impl<'a> Case<'a> {
 pub fn run_case(case: &mut Case) {
     match case.prop {
         "C01" => c01::run_case(case),
+        "C02" => c02::run_case(case),
+        "C03" => c03::run_case(case),
         "C04" => c04::run_case(case),
+        "C05" => c05::run_case(case),
         p => panic!("unknown property {}", p),
     }
 }
